@@ -75,10 +75,10 @@ partial def parseWrites : List String → Option (List Write)
   | _ => none
 
 def showErr : Err → String
-  | .outOfFuel => "error outOfFuel"
-  | .panic m => s!"error panic {m}"
-  | .deadlock m => s!"error deadlock {m}"
-  | .badOp m => s!"error badOp {m}"
+  | .outOfFuel => "crash outOfFuel"
+  | .panic _ => "crash panic"
+  | .deadlock _ => "crash hang"
+  | .badOp m => s!"bad-op {m}"
 
 def showSetRes : SetRes → String
   | .fresh => "Fresh" | .updated => "Updated" | .unchanged => "Unchanged"
@@ -172,5 +172,5 @@ partial def loop (h : IO.FS.Stream) (out : IO.FS.Stream) (core : Bool) (t : Togg
   loop h out core t d'
 
 def main (args : List String) : IO Unit := do
-  let t : Toggles := { f1 := args.contains "f1", f2 := args.contains "f2", f3 := args.contains "f3", f14 := args.contains "f14", desc := args.contains "desc" }
+  let t : Toggles := { f1 := args.contains "f1", f2 := args.contains "f2", f3 := args.contains "f3", f14 := args.contains "f14", f16 := args.contains "f16", desc := args.contains "desc" }
   loop (← IO.getStdin) (← IO.getStdout) (args.contains "core") t {}
